@@ -35,11 +35,19 @@ add("c10__w__dec_cc_range", 19, "own", "dec::witness::<_, 2, 16>")
 # ---------------------------------------------------------------- process_packet, one call
 PROC_Q = [12, 13, 14]
 PROC_T = [15, 16, 17, 18, 19, 20, 24, 32, 64]
+# 12/13/14: every answerable request has one of these lengths; 16: the Set Endpoint ID *response*
+# (Rq=0, Success, 3 data bytes) — the shortest fixed-length response, for "responses change nothing"
+PROC_Q_EXTRA = {"C11": [16], "C13": [16], "C02": [], "C10": [16], "C12": []}
 for pid, own in [("C02", "ign"), ("C10", "own"), ("C11", "ign"), ("C12", "ign"), ("C13", "ign")]:
-    for n in PROC_Q:
+    for n in PROC_Q + PROC_Q_EXTRA[pid]:
         add("%s__q__proc_len%d" % (pid.lower(), n), 70, own, "proc::one::<_, %s, %d, 3, 2, false>" % (pid, n))
     for n in PROC_T:
+        if n in PROC_Q_EXTRA[pid]:
+            continue
         add("%s__t__proc_len%d" % (pid.lower(), n), max(70, n + 6), own, "proc::one::<_, %s, %d, 3, 2, false>" % (pid, n))
+for pid in ["C03", "C04"]:
+    for n in PROC_Q:
+        add("%s__q__proc_len%d" % (pid.lower(), n), 70, "ign", "proc::one::<_, %s, %d, 3, 2, false>" % (pid, n))
 add("c10__t__proc_len259", 270, "own", "proc::one::<_, C10, 259, 3, 2, false>")
 add("c11__t__proc_len259", 270, "ign", "proc::one::<_, C11, 259, 3, 2, false>")
 # C14: 1..=16 vendor sets; only 13-byte packets carry the command
@@ -114,7 +122,7 @@ for n in [0, 1, 4, 16, 64, 128, 200, 246, 247, 248, 249, 252, 300]:
     tier = "q" if n in (0, 1, 4, 247, 248, 252) else "t"
     enc("vendor_pci%d" % n, "enc::VendorDefined<0, %d>" % n, "msg", tier=tier, flags="ok" if n <= 247 else "oversize", big=n > 64)
 for n in [0, 1, 4, 16, 64, 128, 200, 244, 245, 246, 250, 300]:
-    tier = "q" if n in (0, 1, 4, 246) else "t"
+    tier = "q" if n in (0, 1, 4, 245, 246) else "t"
     enc("vendor_iana%d" % n, "enc::VendorDefined<1, %d>" % n, "msg", tier=tier, flags="ok" if n <= 245 else "oversize", big=n > 64)
 enc("vendor_badfmt4", "enc::VendorDefined<2, 4>", "msg", flags="refuse")
 # the four public packet writers called directly: Raw<W, H, L, R>  (R = through the response half)
@@ -126,8 +134,8 @@ for w, wn in [(0, "ctrl"), (1, "pci"), (2, "iana"), (3, "spdm")]:
         for n in [0, 4, lim, lim + 1]:
             if h == 3 and n >= lim:
                 tier = "t"
-            elif n == lim:
-                tier = "t"  # maximum-size packets cost minutes each: one (vendor_pci247) stays in quick
+            elif n == lim and not (w in (0, 3) and h in (0, 2)):
+                tier = "t"  # maximum-size packets cost minutes each
             else:
                 tier = "q" if (n <= 4 or w in (0, 3)) else "t"
             enc("raw_%s_h%d_%d" % (wn, h, n), "enc::Raw<%d, %d, %d, false>" % (w, h, n), kind, tier=tier,
@@ -155,12 +163,17 @@ for e in ENC:
     enc_harness("C16", e, own="own")
     # C04: framing for ok instances, refusal for oversize instances
     if ok or e["flags"] == "oversize":
-        enc_harness("C04", e)
+        enc_harness("C04", e, tier="t" if (e["big"] and ok and e["short"] != "vendor_pci247") else None)
     if refuse_only:
         if k == "msg" and e["flags"] == "refuse":
             enc_harness("C08", e)
         continue
-    enc_harness("C03", e)
+    # maximum-size instances (minutes each): every writer in quick for C16/C08 (each writer has its own
+    # size check), only vendor_pci247 in quick for C01/C03/C04
+    bigtier = None
+    if e["big"] and e["short"] != "vendor_pci247":
+        bigtier = "t"
+    enc_harness("C03", e, tier=bigtier)
     if not e["big"]:
         enc_harness("C05", e)
         enc_harness("C13", e)
@@ -181,7 +194,7 @@ for e in ENC:
             add("c01__w__resp_get_eid_success", e["buf"] + 4, "own", "enc::run_mode::<_, C01, %s, 2, %d>" % (e["ty"], e["buf"]))
         else:
             # maximum-size round trips cost ~8 min each: thorough only
-            enc_harness("C01", e, own="own", tier="t" if e["big"] else None)
+            enc_harness("C01", e, own="own", tier="t" if (e["big"] and e["short"] != "vendor_pci247") else None)
 # C06 finding: Query Hop command code — the C06 harness for it is the witness
 L[:] = [x for x in L if x[0] != "c06__q__req_query_hop"]
 add("c06__w__req_query_hop", 92, "ign", "enc::run::<_, C06, enc::ReqQueryHop, 88>")
